@@ -497,6 +497,13 @@ class Run:
                 else:
                     fd = [g for (x, f0, pts, g) in rec.FD if x == k]
                     gprev = (np.array(hexv(fd[-1])) * self.scale_factor()) if fd else np.full_like(e["d"], np.inf)
+        # the line-search constants the model hands to the stepper (`dcNew … ftolLS gtolLS xtolLS …`) against those
+        # the implementation constructs DCSRCH with
+        want = tuple(float(self.kwargs.get(k, d)) for k, d in (("ftol_linesearch", 1e-3), ("gtol_linesearch", 0.9), ("xtol_linesearch", 1e-1)))
+        for e in rec.ls:
+            if "tols" in e and tuple(e["tols"]) != want:
+                diffs.append(f"line-search constants handed to DCSRCH: impl (ftol, gtol, xtol) = {tuple(e['tols'])}, model {want}")
+                break
         if len(dc) != len(edc):
             diffs.append(f"dcsrch calls: impl {len(edc)} model {len(dc)}")
         from harness.common import hexf
